@@ -196,16 +196,40 @@ def ackFailed (s : St) (a : Active) (attempt : Nat) : St × List Out :=
   | .filled _ => acknowledged s a
   | _ => nextAttempt s a attempt
 
-/-- `_stop()` + `communication_channel = None` + `transport.stop()`. -/
-def connLost (s : St) : St × List Out :=
-  let s := { s with chan := false, up := false }
+/-- `_stop()` as the active request sees it: a request waiting for its answer fails now; one that still waits for
+its acknowledgement only has its future cancelled. -/
+def stopActive (s : St) : St × List Out :=
   match s.act with
   | none => (s, [])
   | some a =>
-    let a := { a with pend := a.pend.stop }
     match a.stage with
-    | .ansWait _ => consume s a
-    | _ => ({ s with act := some a }, [])
+    | .ansWait _ => consume s { a with pend := a.pend.stop }
+    | _ => ({ s with act := some { a with pend := a.pend.stop } }, [])
+
+/-- `communication_channel = None` + `_stop()` + `transport.stop()`. -/
+def connLost (s : St) : St × List Out := stopActive { s with chan := false, up := false }
+
+/-- User `disconnect()`: `_stop()`, channel cleared, Disconnect exchange if there was a channel. -/
+def userClose (s : St) : St × List Out :=
+  if s.chan ∧ s.up then
+    let (s', o) := stopActive { s with chan := false, userDisc := some (s.now + DTMO) }
+    (s', (s.now, .dreq) :: o)
+  else stopActive { s with chan := false, up := false }
+
+/-- The DisconnectResponse ends a user `disconnect()` … -/
+def userDiscDone (s : St) : St :=
+  match s.userDisc with
+  | some _ => { s with userDisc := none, up := false }
+  | none => s
+
+/-- … and the `disconnect()` of a request that gave up. -/
+def giveUpDone (s : St) : St × List Out :=
+  match s.act with
+  | some a =>
+    (match a.stage with
+     | .giveUp _ => finish { s with up := false } a .comm
+     | _ => (s, []))
+  | none => (s, [])
 
 /-- `_cemi_received`. -/
 def deliver (s : St) (f : Frame) : St × List Out :=
@@ -254,29 +278,8 @@ def inject (s : St) : In → St × List Out
       (s', (s.now, .dresp) :: o)
     else (s, [])
   | .close _ .lost => if s.up then connLost s else (s, [])
-  | .close _ .user =>
-    let wasOpen := s.chan
-    let s := { s with chan := false }
-    let (s, o0) : St × List Out :=
-      if wasOpen ∧ s.up then ({ s with userDisc := some (s.now + DTMO) }, [(s.now, .dreq)])
-      else ({ s with up := false }, [])
-    (match s.act with
-     | none => (s, o0)
-     | some a =>
-       let a := { a with pend := a.pend.stop }
-       (match a.stage with
-        | .ansWait _ => let (s', o) := consume s a; (s', o0 ++ o)
-        | _ => ({ s with act := some a }, o0)))
-  | .discResp _ =>
-    let s := match s.userDisc with
-      | some _ => { s with userDisc := none, up := false }
-      | none => s
-    (match s.act with
-     | some a =>
-       (match a.stage with
-        | .giveUp _ => finish { s with up := false } a .comm
-        | _ => (s, []))
-     | none => (s, []))
+  | .close _ .user => userClose s
+  | .discResp _ => giveUpDone (userDiscDone s)
   | .fin _ => (s, [])
 
 /-- The earliest timer of the state. -/
